@@ -16,7 +16,7 @@ ASSUMPTIONS = ["after an assignment to a field that decides where or what the in
 HARNESS_TIMEOUT = 600
 DRIVER_TIMEOUT = 900
 
-spec_override, judge, classify, model_skip = P.make_hooks("C17", "GSW")
+spec_override, judge, classify = P.make_hooks("C17", "GSW")
 canon = P.canon
 
 
@@ -164,4 +164,4 @@ def cases(ctx):
         tgt = rng.choice([path, path + ".payload", path + "." + rng.choice(P.ALL_NAMES)]) if rng.random() < 0.8 else "payload"
         steps = [f"G{path}", f"S{tgt}={v}", f"G{tgt}", "W", f"G{path}.payload", "G$1", "G$2", "G$3", "W"]
         out.append(Case(P.pkt_line(frame, steps), ("uncovered", host)))
-    return out
+    return P.with_fix(ctx, out)
